@@ -2,7 +2,7 @@
    theorem can carry: progress bookkeeping never aborts an analysis, notifications carry a fraction in [0,1]).
    Only statements; proofs are [exact <lemma>] or [lia]. *)
 From Coq Require Import ZArith QArith Bool List Lia.
-From PV Require Import Base.Num Base.Outcome An.Progress An.Progress_facts An.Progress_blocks gen.Steps_gen gen.ProgressBlocks_gen.
+From PV Require Import Base.Num Base.Outcome An.Progress An.Progress_facts An.Progress_blocks An.Progress_kk gen.Steps_gen gen.ProgressBlocks_gen gen.KKSteps_gen.
 Import ListNotations.
 
 (* every notification carries a fraction between 0 and 1, in every reachable state and for every operation *)
@@ -59,7 +59,34 @@ Proof.
 Qed.
 Print Assumptions C18_constant_blocks_run_to_the_end.
 
-(* NOT PROVED (kept visible): the blocks whose total is an expression other than perform_zhit and fit_circuit (evaluate_log_F_ext,
-   _test_lambda_values, _perform_attempts, calculate_drt_tr_rbf) — their number of increments depends on data (break conditions,
-   loops over pools) and is only observed: the harness wraps
-   Progress and reports any increment beyond the total as a violation with the option tuple as replay. *)
+(* evaluate_log_F_ext (Kramers-Kronig tests; totals and stage sizes translated from exploratory.py on every run, the places where the
+   progress object is incremented checked structurally by tools/tr_kksteps.py).  On each of its three routes the block runs to the end
+   for EVERY size of the job:
+   - fixed extension, any list of n numbers of RC elements, any number of collected results (the non-linear implementation may stop
+     early), in all three implementations;
+   - extension search by the two-stage approach, any accepted number N of evaluations, any number of results either stage collects
+     (its grid sizes bound them: points equal to 0 or too close to an earlier point are skipped);
+   - extension search by lmfit (N < 0), as long as lmfit calls the residual function at most abs(N) = max_nfev times (its contract). *)
+Theorem C18_kk_fixed_extension_runs_to_the_end :
+  forall n collected ops, (0 <= collected <= n)%Z -> forallb block_op ops = true -> incs ops = kk_incs_fixed collected ->
+  runs_to_the_end (kk_total_fixed n) ops.
+Proof. exact kk_fixed_block_runs. Qed.
+Print Assumptions C18_kk_fixed_extension_runs_to_the_end.
+
+Theorem C18_kk_two_stage_search_runs_to_the_end :
+  forall N c1 c2 ops, (kk_least_evaluations <= N)%Z -> (0 <= c1 <= kk_stage1_points N)%Z -> (0 <= c2 <= kk_stage2_points N (c1 + 1))%Z ->
+  forallb block_op ops = true -> incs ops = kk_incs_custom c1 c2 ->
+  runs_to_the_end (kk_total_search N) ops.
+Proof. exact kk_custom_block_runs. Qed.
+Print Assumptions C18_kk_two_stage_search_runs_to_the_end.
+
+Theorem C18_kk_lmfit_search_runs_to_the_end :
+  forall N nfev ops, (N < 0)%Z -> (0 <= nfev <= Z.abs N)%Z ->
+  forallb block_op ops = true -> incs ops = kk_incs_lmfit nfev ->
+  runs_to_the_end (kk_total_search N) ops.
+Proof. exact kk_lmfit_block_runs. Qed.
+Print Assumptions C18_kk_lmfit_search_runs_to_the_end.
+
+(* NOT PROVED (kept visible): the remaining blocks whose total is an expression (_test_lambda_values, _perform_attempts,
+   calculate_drt_tr_rbf) — their number of increments depends on data (break conditions, loops over pools) and is only observed: the
+   harness wraps Progress and reports any increment beyond the total as a violation with the option tuple as replay. *)
